@@ -1139,6 +1139,7 @@ func determinism(prop string, seeds int, onlyPart string) int {
 			steps              int
 		}
 		ref := map[uint64]rk{}
+		cutShort := 0
 		diverged := map[uint64]bool{}
 		var mu sync.Mutex
 		var wg sync.WaitGroup
@@ -1160,6 +1161,12 @@ func determinism(prop string, seeds int, onlyPart string) int {
 					}
 					mu.Lock()
 					for _, r := range rs {
+						if r.Outcome == "inconclusive" {
+							// cut short by its wall-clock budget (a loaded machine): not a completed run,
+							// nothing to compare; counted so that the report shows it
+							cutShort++
+							continue
+						}
 						k := rk{r.LogHash, r.Outcome, r.Key, r.Steps}
 						if o, ok := ref[r.Seed]; ok {
 							if o != k && !diverged[r.Seed] {
@@ -1187,7 +1194,7 @@ func determinism(prop string, seeds int, onlyPart string) int {
 		for _, k := range ref {
 			hashes[k.hash] = true
 		}
-		fmt.Printf("determinism %s/%s: %d seeds x %d processes (GOMAXPROCS %v), %d distinct traces, %d diverged\n", prop, part.Name, len(ref), len(procs), procs, len(hashes), len(diverged))
+		fmt.Printf("determinism %s/%s: %d seeds x %d processes (GOMAXPROCS %v), %d distinct traces, %d diverged, %d runs cut short by the wall clock (not compared)\n", prop, part.Name, len(ref), len(procs), procs, len(hashes), len(diverged), cutShort)
 		bad += len(diverged)
 	}
 	if bad > 0 {
